@@ -292,11 +292,12 @@ fn main() {
             // start from a non-initial state: room C already contains an abandoned, merged power-levels fork
             (all17.clone(), 2, vec![0, 1, 2], 2, vec![11], vec!['C']),
         ],
+        // cheapest first, so that the wall cap (if it is ever hit) cuts only the last, largest pass
         Tier::Thorough => vec![
-            (vec![0, 1, 2, 3, 4, 6, 7, 9, 10, 13], 4, vec![0, 1, 2], 4, vec![11, 6, 2], vec!['A', 'B']),
             (all.clone(), 3, vec![0, 1, 2], 3, vec![11, 6, 2], vec!['A', 'B']),
             (all17.clone(), 3, vec![0, 1, 2], 3, vec![11, 6], vec!['C']),
             (vec![14, 15, 16, 9, 13, 11], 5, vec![2], 2, vec![11], vec!['A']),
+            (vec![0, 1, 2, 3, 4, 6, 7, 9, 10, 13], 4, vec![1, 2], 2, vec![11], vec!['A', 'B']),
         ],
     };
     report.set_rule(&format!(
